@@ -24,7 +24,8 @@ class Tr:
         ctor = self.flavour
         if self.kind == "hist":
             # "histogram_tiny": every observed amount lies above the only finite bound (only the implicit +Inf bucket counts it)
-            o["buckets"] = [0.5] if self.flavour == "histogram_tiny" else [1e12]
+            # "histogram_tiny": every observed amount lies above the only finite bound; otherwise three bounds between the amounts
+            o["buckets"] = [0.5] if self.flavour == "histogram_tiny" else [2.5, 20.5, 1e12]
             ctor = "histogram"
         if mode == "single":
             return [{"op": ctor, "as": "m", "opts": o}, {"op": "local", "of": "m", "as": "h1"}]
@@ -78,7 +79,7 @@ class Tr:
         obs = {"shared": {"n": 0, "s": 0}, "locs": {h: dict(neg) for h in HANDLES}, "coll": {k: dict(neg) for k in KEYS}}
         if mode == "single":
             m = rs[0]["ok"]
-            obs["shared"] = {"n": m["hist"]["count"], "s": m["hist"]["sum"].get("i")} if hist else {"n": None, "s": m["counter"].get("i")}
+            obs["shared"] = {"n": m["hist"]["count"], "s": m["hist"]["sum"].get("i"), "b": [[fval(b[0]), b[1]] for b in m["hist"]["b"]]} if hist else {"n": None, "s": m["counter"].get("i")}
             i = 1
             for h in alive:
                 if hist:
@@ -92,7 +93,7 @@ class Tr:
             for fam in rs[0]["ok"]:
                 for m in fam["metrics"]:
                     key = dict(map(tuple, m["labels"]))["l"]
-                    obs["coll"][key] = {"n": m["hist"]["count"], "s": m["hist"]["sum"].get("i")} if hist else {"n": None, "s": m["counter"].get("i")}
+                    obs["coll"][key] = {"n": m["hist"]["count"], "s": m["hist"]["sum"].get("i"), "b": [[fval(b[0]), b[1]] for b in m["hist"]["b"]]} if hist else {"n": None, "s": m["counter"].get("i")}
         return obs
 
 
@@ -102,7 +103,29 @@ def amounts_equal(exp, got, hist):
     return exp["s"] == got["s"] and (not hist or exp["n"] == got["n"])
 
 
-def obs_equal(exp, got, hist):
+def buckets_ok(got, pow2):
+    """cumulative bucket counts of a collected histogram against its own count and sum: every amount of a replayed history is a
+    distinct power of two, so the sum's binary digits ARE the set of observations and fix every bucket; in recorded traces
+    (amounts 1-3) only 'non-decreasing, at most the count, everything below 1e12' is derivable"""
+    b = got.get("b")
+    if b is None or got.get("s") is None:
+        return True
+    cum = [c for _, c in b]
+    if any(x > y for x, y in zip(cum, cum[1:])) or any(c > got["n"] for c in cum):
+        return False
+    for bound, c in b:
+        if pow2:
+            want = sum(1 for k in range(0, 62) if (got["s"] >> k) & 1 and float(1 << k) <= bound)
+            if c != want:
+                return False
+        elif bound >= 1e12 and c != got["n"]:
+            return False
+    return True
+
+
+def obs_equal(exp, got, hist, pow2=True):
+    if hist and not (buckets_ok(got["shared"], pow2) and all(buckets_ok(got["coll"][k], pow2) for k in KEYS)):
+        return False
     return (amounts_equal(exp["shared"], got["shared"], hist) and all(amounts_equal(exp["locs"][h], got["locs"][h], hist) for h in HANDLES)
             and all(amounts_equal(exp["coll"][k], got["coll"][k], hist) for k in KEYS))
 
@@ -177,6 +200,14 @@ def run(ctx):
     import afcheck
     af = afcheck.run(ctx, exe)
     ctx.cov.update(af)
+    # the Ledger clause at scale: one local vector handle touching thousands of label tuples between two flushes
+    import bulk
+    nb = 0
+    for n in ((5000,) if ctx.quick else (5000, 70000)):
+        bj = bulk.local_vec_jobs(n)
+        br = run_api(ctx, exe, [{"id": j["id"], "calls": j["calls"]} for j in bj], "bulk", nproc=3)
+        nb += sum(1 for j in bj if bulk.judge_local_vec(ctx, j, br[j["id"]], "scale"))
+    ctx.cov["scale_scenarios_conforming"] = nb
     ctx.cov.update({
         "traces_validated_against_impl": nconf + ntr_ok + af["af_conforming"], "behaviours_replayed": total, "behaviours_conforming": nconf, "recorded_traces": ntr, "recorded_traces_accepted": ntr_ok,
         "samples": samples, "exhaustive": True,
@@ -226,6 +257,13 @@ def trace_direction(ctx, exe):
                                     a["n"] = 0
                         rec = dict(e)
                         rec["res"] = "Ok" if all("ok" in x for x in er) else "Err"
+                        if kind == "hist":
+                            # bucket clause, derived from the snapshot itself (LocalTrace tracks counts and sums)
+                            for a in [got["shared"]] + list(got["coll"].values()):
+                                if not buckets_ok(a, False):
+                                    ctx.violation("trace:%s:buckets" % mode, "%s %s: after %s the collected histogram has count %s but cumulative buckets %s" % (fl, mode, e["op"], a["n"], a.get("b")),
+                                                  {"flavour": fl, "kind": kind, "mode": mode, "events": ev[:ev.index(e) + 1], "trace": True})
+                                a.pop("b", None)
                         rec["obs"] = got
                         f.write(json.dumps(rec) + "\n")
                         index.append((ev, e))
@@ -296,6 +334,9 @@ def gen_plan(rnd, mode, n):
 def replay(path):
     d = json.load(open(path))
     rp = d["replay"]
+    if rp.get("bulk"):
+        import bulk
+        return bulk.replay(rp)
     if rp.get("autoflush"):
         import afcheck
         return afcheck.replay(rp)
